@@ -146,7 +146,7 @@ func c06Check(state any, e *vsched.Exec) (string, []explore.Finding) {
 			}
 			want, werr := resultFor(c06Msg(id, st.steps[id].Kind))
 			if werr != nil {
-				if re, ok := r.Message.(p9p.MessageRerror); !ok || re.Ename != werr.Error() {
+				if re, ok := r.Message.(p9p.MessageRerror); !ok || re.Ename != enameOf(werr) {
 					bad("wrong-result", "request %d: handler returned error %q, reply is %s", id, werr, Brief(r.Message))
 				}
 			} else if !EqMsg(want, r.Message) {
